@@ -277,7 +277,91 @@ func hashStr(s string) uint32 {
 	return h
 }
 
+// solveOne decides one obligation. A goal of the form g1 => (g2 => (c1 and c2 ...)) that is not decided as a whole is
+// decided conjunct by conjunct (every conjunct must be unsat): the solvers split such goals poorly when a conjunct is
+// quantified.
 func solveOne(outDir, bg string, o *Obligation, tier string, budget, seed int) *Result {
+	parts := splitGoal(o.Goal)
+	if len(parts) < 2 || o.Class == "cover" {
+		return solveWhole(outDir, bg, o, tier, budget, seed)
+	}
+	first := 3
+	if budget < first {
+		first = budget
+	}
+	r := solveWhole(outDir, bg, o, tier, first, seed)
+	if r.Status == "unsat" || r.Status == "sat" {
+		return r
+	}
+	total := r.Seconds
+	agree := map[string]bool{}
+	allUnsat := true
+	for i, g := range parts {
+		po := *o
+		po.Name = fmt.Sprintf("%s#part%d", o.Name, i)
+		po.Goal = g
+		pr := solveWhole(outDir, bg, &po, tier, budget, seed)
+		total += pr.Seconds
+		if pr.Status != "unsat" {
+			allUnsat = false
+			if pr.Status == "sat" {
+				pr.Obl = o
+				pr.Seconds = total
+				return pr
+			}
+			break
+		}
+		for _, a := range pr.Agree {
+			agree[a] = true
+		}
+		r.Solver = pr.Solver
+	}
+	if allUnsat {
+		r.Status = "unsat"
+		r.Seconds = total
+		r.Agree = nil
+		for a := range agree {
+			r.Agree = append(r.Agree, a)
+		}
+		r.Output = "decided conjunct by conjunct"
+		return r
+	}
+	r2 := solveWhole(outDir, bg, o, tier, budget, seed)
+	r2.Seconds += total
+	return r2
+}
+
+// splitGoal: a => (b => (and c1 .. cn))  ->  [a => (b => c1), ...]; nil when the goal has no such shape.
+func splitGoal(g string) []string {
+	var ants []string
+	cur := g
+	for strings.HasPrefix(cur, "(=> ") {
+		a := splitArgs(cur)
+		if len(a) != 3 {
+			break
+		}
+		ants = append(ants, a[1])
+		cur = a[2]
+	}
+	if !strings.HasPrefix(cur, "(and ") {
+		return nil
+	}
+	cs := splitArgs(cur)
+	if len(cs) < 3 {
+		return nil
+	}
+	var out []string
+	for _, c := range cs[1:] {
+		t := c
+		for i := len(ants) - 1; i >= 0; i-- {
+			t = "(=> " + ants[i] + " " + t + ")"
+		}
+		out = append(out, t)
+	}
+	return out
+}
+
+func solveWhole(outDir, bg string, o *Obligation, tier string, budget, seed int) *Result {
 	r := &Result{Obl: o}
 	if o.Goal == "true" {
 		r.Status, r.Solver = "unsat", "trivial"
@@ -290,13 +374,22 @@ func solveOne(outDir, bg string, o *Obligation, tier string, budget, seed int) *
 		fmt.Fprintf(&b, "(set-option :random-seed %d)\n", seed%1000000)
 	}
 	b.WriteString(bg)
-	b.WriteString("(assert (not " + o.Goal + "))\n(check-sat)\n(get-model)\n")
+	head := b.String()
+	b.WriteString("(assert (not " + stripPatterns(o.Goal) + "))\n")
+	b.WriteString("(check-sat)\n(get-model)\n")
 	if err := os.WriteFile(file, []byte(b.String()), 0o644); err != nil {
 		r.Status = "error"
 		r.Output = err.Error()
 		return r
 	}
 	r.File = file
+	// second form of the same query: outer implications and universal quantifiers of the goal eliminated by the
+	// generator (see negatedGoal). Neither form dominates the other in practice; both are tried.
+	skFile := ""
+	if sk := negatedGoal(stripPatterns(o.Goal)); strings.Contains(sk, "(declare-const sk_") {
+		skFile = strings.TrimSuffix(file, ".smt2") + ".sk.smt2"
+		os.WriteFile(skFile, []byte(head+sk+"(check-sat)\n(get-model)\n"), 0o644)
+	}
 	if b.Len() > 4<<20 {
 		r.Status = "error"
 		r.Output = "VC larger than 4 MB: generator error"
@@ -306,6 +399,7 @@ func solveOne(outDir, bg string, o *Obligation, tier string, budget, seed int) *
 	type attempt struct {
 		sp  solverSpec
 		tmo int
+		sk  bool
 	}
 	var plan []attempt
 	short := 2
@@ -313,26 +407,32 @@ func solveOne(outDir, bg string, o *Obligation, tier string, budget, seed int) *
 		short = budget
 	}
 	for _, sp := range solvers {
-		plan = append(plan, attempt{sp, short})
+		plan = append(plan, attempt{sp, short, false})
+	}
+	if skFile != "" {
+		plan = append(plan, attempt{solvers[0], short, true}, attempt{solvers[1], short, true})
 	}
 	if budget > short {
 		for _, sp := range solvers {
-			plan = append(plan, attempt{sp, budget})
+			plan = append(plan, attempt{sp, budget, false})
+		}
+		if skFile != "" {
+			plan = append(plan, attempt{solvers[0], budget, true})
 		}
 	}
 	if o.Class == "cover" {
 		// vacuity probes only look for a quick `unsat`; anything else means "not shown contradictory"
-		plan = []attempt{{solvers[0], 2}, {solvers[1], 2}}
+		plan = []attempt{{solvers[0], 2, false}, {solvers[1], 2, false}}
 	}
 	if h := solverHints[o.Name]; h != "" && o.Class != "cover" {
 		// the solver that decided this obligation when the baseline was taken goes first, with a longer first attempt
 		for _, sp := range solvers {
-			if sp.name == h {
+			if sp.name == strings.TrimSuffix(h, "+sk") {
 				first := 3 * short
 				if first > budget {
 					first = budget
 				}
-				plan = append([]attempt{{sp, first}}, plan...)
+				plan = append([]attempt{{sp, first, strings.HasSuffix(h, "+sk")}}, plan...)
 			}
 		}
 	}
@@ -340,10 +440,20 @@ func solveOne(outDir, bg string, o *Obligation, tier string, budget, seed int) *
 	var lastOut string
 	for _, at := range plan {
 		sp, tmo := at.sp, at.tmo
-		st, out, secs := runSolver(sp, file, tmo)
+		qf := file
+		if at.sk {
+			if skFile == "" {
+				continue
+			}
+			qf = skFile
+		}
+		st, out, secs := runSolver(sp, qf, tmo)
 		r.Seconds += secs
 		if st == "unsat" {
 			r.Status, r.Solver = "unsat", sp.name
+			if at.sk {
+				r.Solver = sp.name + "+sk"
+			}
 			r.Agree = append(r.Agree, sp.name)
 			if tier == "thorough" {
 				for _, sp2 := range order {
@@ -398,15 +508,120 @@ func solveAllEnc(outDir string, e *Enc, obls []*Obligation, tier string, workers
 	results := make([]*Result, len(obls))
 	var wg sync.WaitGroup
 	sem := make(chan struct{}, workers)
+	bgs := make([]string, len(obls))
+	for i, o := range obls {
+		bgs[i] = e.BackgroundFor(o) // sequentially: building a background may evaluate facts (shared caches)
+	}
 	for i, o := range obls {
 		wg.Add(1)
 		go func(i int, o *Obligation) {
 			defer wg.Done()
 			sem <- struct{}{}
 			defer func() { <-sem }()
-			results[i] = solveOne(outDir, e.BackgroundFor(o), o, tier, budget, seed)
+			results[i] = solveOne(outDir, bgs[i], o, tier, budget, seed)
 		}(i, o)
 	}
 	wg.Wait()
 	return results
+}
+
+// stripPatterns removes `(! body :pattern (...) ...)` annotations: a goal is negated, its universal quantifiers become
+// existential and are skolemised; trigger annotations there only get in the solver's way.
+func stripPatterns(t string) string {
+	for {
+		i := strings.Index(t, "(! ")
+		if i < 0 {
+			return t
+		}
+		// body starts at i+3: one balanced term
+		j := i + 3
+		depth := 0
+		for ; j < len(t); j++ {
+			if t[j] == '(' {
+				depth++
+			} else if t[j] == ')' {
+				depth--
+				if depth == 0 {
+					j++
+					break
+				}
+			} else if depth == 0 && t[j] == ' ' {
+				break
+			}
+		}
+		body := t[i+3 : j]
+		// skip to the closing paren of the (! ...) form
+		k := j
+		depth = 1
+		for ; k < len(t) && depth > 0; k++ {
+			if t[k] == '(' {
+				depth++
+			} else if t[k] == ')' {
+				depth--
+			}
+		}
+		t = t[:i] + body + t[k:]
+	}
+}
+
+
+// negatedGoal poses the negation of a goal. Outer implications and universal quantifiers are eliminated here
+// (antecedents asserted, bound variables replaced by fresh constants): the solvers do much better on
+//   A, B, not body[c/x]   than on   not (A => (B => forall x. body)).
+func negatedGoal(g string) string {
+	if os.Getenv("GOBTVC_NOSKOLEM") != "" {
+		return "(assert (not " + g + "))\n"
+	}
+	var out strings.Builder
+	cur := g
+	skCounter := 0 // names depend on the goal only: the same query text on every run
+	for depth := 0; depth < 16; depth++ {
+		if strings.HasPrefix(cur, "(=> ") {
+			a := splitArgs(cur)
+			if len(a) != 3 {
+				break
+			}
+			out.WriteString("(assert " + a[1] + ")\n")
+			cur = a[2]
+			continue
+		}
+		if strings.HasPrefix(cur, "(forall (") {
+			a := splitArgs(cur)
+			if len(a) != 3 {
+				break
+			}
+			binders := splitArgs(a[1])
+			body := a[2]
+			ok := true
+			type bnd struct{ name, sort string }
+			var bs []bnd
+			for _, b := range binders {
+				p := splitArgs(b)
+				if len(p) != 2 {
+					ok = false
+					break
+				}
+				if strings.Contains(body, "(("+p[0]+" ") || strings.Contains(body, " ("+p[0]+" ") && strings.Contains(body, "(forall") {
+					ok = false // the name is bound again inside: leave the quantifier to the solver
+					break
+				}
+				bs = append(bs, bnd{p[0], p[1]})
+			}
+			if !ok {
+				break
+			}
+			for _, b := range bs {
+				skCounter++
+				c := fmt.Sprintf("sk_%s_%d", sanitize(b.name), skCounter)
+				out.WriteString(fmt.Sprintf("(declare-const %s %s)\n", c, b.sort))
+				body = regexp.MustCompile(`([ (])`+regexp.QuoteMeta(b.name)+`([ )])`).ReplaceAllString(body, "${1}"+c+"${2}")
+				body = regexp.MustCompile(`([ (])`+regexp.QuoteMeta(b.name)+`([ )])`).ReplaceAllString(body, "${1}"+c+"${2}") // adjacent occurrences share a delimiter
+			}
+			cur = body
+			continue
+		}
+		break
+	}
+	out.WriteString("(assert (not " + cur + "))\n")
+	return out.String()
 }
